@@ -120,10 +120,12 @@ def run(tier):
             for neg in (False, True):
                 scen.append(dict(null_scen(col(name), rows_n, carrier, neg, "sync" if neg else "emit"), norename=True))
     # quote characters inside patterns and texts (a double quote at the edge of a single-quoted pattern is a character like any other)
-    qpats = ['"a%', '%"', '"_', 'a"%', '"', '%"%', '_"', '"%"']
-    qtexts = ['"ab', 'ab', 'a"', '"', 'x"', 'a"b', '""', '', '"a"', 'a']
+    qpats = ['"a%', '%"', '"_', 'a"%', '"', '%"%', '_"', '"%"', '%IS NULL%', 'x IS NOT NULL', '%lag(x)%']      # also operator text INSIDE the pattern
+    qtexts = ['"ab', 'ab', 'a"', '"', 'x"', 'a"b', '""', '', '"a"', 'a', 'the value IS NULL here', 'x IS NOT NULL', 'a lag(x) b']
     for k, pat in enumerate(qpats):
         for carrier in ("where", "case", "selpar"):
+            if "(" in pat and carrier != "where":
+                continue      # a CASE / parenthesised item holding parentheses in a literal is the recorded family CaseInsideExpressionIsNull
             scen.append(like_scen(pat, qtexts, carrier, "sync" if k % 2 else "emit"))
     # LIKE conditions over columns whose names begin with an operator word and an underscore (is_tag, or_code)
     for name in ("is_tag", "or_code", "like_b"):
@@ -136,8 +138,8 @@ def run(tier):
                 sc["norename"] = True
                 scen.append(sc)
     # literal characters outside ASCII in patterns and texts (the wildcards stand for ASCII characters here: the engine's "_" is one BYTE)
-    upats = ["é_b%", "%é%7%", "传感器_%", "café-_-%", "%器", "é%"]
-    utexts = ["éab", "éxbzz", "xé17", "传感器1号", "传感器", "café-x-y", "cafe-x-y", "温度传感器", "é", "eab", "é7"]
+    upats = ["é_b%", "%é%7%", "传感器_%", "café-_-%", "%器", "é%", "_", "_é", "传_器%", "__"]      # "_" is one CHARACTER, whatever its byte length
+    utexts = ["éab", "éxbzz", "xé17", "传感器1号", "传感器", "café-x-y", "cafe-x-y", "温度传感器", "é", "eab", "é7", "器é", "éé", "e"]
     for k, pat in enumerate(upats):
         for carrier in ("where", "case", "selpar"):
             scen.append(dict(like_scen(pat, utexts, carrier, "sync" if k % 2 else "emit"), norename=True))
